@@ -38,23 +38,27 @@ Do(e) ==
 SizesB == 0..(MaxSize + 1)
 IsBig(n) == n = MaxSize + 1
 KRange(n) == IF s.compress THEN 0..(s.zin + n + 1 - s.zout) ELSE {0}
+KAll == 0..(MaxOps * (MaxSize + 1) + 1)
 
-WriteHeaders == Do(Ev("write_headers", 0, FALSE, 0))
+WriteHeaders == s.hdr = "none" /\ Do(Ev("write_headers", 0, FALSE, 0))
 SendHeadersBuffered == s.hdr = "buf" /\ Do(Ev("send_headers", 0, FALSE, 0))
 SendHeadersNoop == s.hdr # "buf" /\ Do(Ev("send_headers", 0, FALSE, 0))
-WriteCoalesced(n, k) == s.hdr = "buf" /\ Do(Ev("write", n, IsBig(n), k))           \* fast path 1
-WritePlain(n, k) == s.hdr # "buf" /\ Do(Ev("write", n, IsBig(n), k))
+WriteCoalesced(n, k) == s.hdr = "buf" /\ k \in KRange(n) /\ Do(Ev("write", n, IsBig(n), k))           \* fast path 1
+WritePlain(n, k) == s.hdr # "buf" /\ k \in KRange(n) /\ Do(Ev("write", n, IsBig(n), k))
 WriteEofCoalesced(n) == s.hdr = "buf" /\ ~s.compress /\ Do(Ev("write_eof", n, FALSE, 0))   \* fast path 2
 WriteEofCoalescedZ(n) == s.hdr = "buf" /\ s.compress /\ Do(Ev("write_eof", n, FALSE, 0))   \* fast path 3
 WriteEofPlain(n) == s.hdr # "buf" /\ Do(Ev("write_eof", n, FALSE, 0))
 SetEofCoalesced == s.hdr = "buf" /\ Do(Ev("set_eof", 0, FALSE, 0))                \* fast path 4
 SetEofPlain == s.hdr # "buf" /\ Do(Ev("set_eof", 0, FALSE, 0))
-Drain == Do(Ev("drain", 0, FALSE, 0))
+Drain == nops < MaxOps /\ Do(Ev("drain", 0, FALSE, 0))
 
 NextB == \/ WriteHeaders \/ SendHeadersBuffered \/ SendHeadersNoop \/ Drain
          \/ SetEofCoalesced \/ SetEofPlain
-         \/ \E n \in SizesB : \E k \in KRange(n) : WriteCoalesced(n, k) \/ WritePlain(n, k)
-         \/ \E n \in 0..MaxSize : WriteEofCoalesced(n) \/ WriteEofCoalescedZ(n) \/ WriteEofPlain(n)
+         \/ \E n \in SizesB, k \in KAll : WriteCoalesced(n, k)
+         \/ \E n \in SizesB, k \in KAll : WritePlain(n, k)
+         \/ \E n \in 0..MaxSize : WriteEofCoalesced(n)
+         \/ \E n \in 0..MaxSize : WriteEofCoalescedZ(n)
+         \/ \E n \in 0..MaxSize : WriteEofPlain(n)
 SpecB == InitB /\ [][NextB]_varsB
 
 InvHdrOnceFirst == HdrOnceFirst(s)
